@@ -29,7 +29,7 @@ def okS4 (ps : List String) : X.Stmt → Bool
   | .assign _ e => pureE e || callE ps e
   | .syscall id args => decide (id < 3) && args.all pureE
   | .call f args => ps.contains f && args.all pureE
-  | .assignSub _ _ _ => false
+  | .assignSub _ i e => pureE i && pureE e
 def okS4L (ps : List String) : List X.Stmt → Bool
   | [] => true
   | s :: ss => okS4 ps s && okS4L ps ss
@@ -55,7 +55,7 @@ def okS5 (pk : Bool) (ps imp : List String) : X.Stmt → Bool
   | .assign _ e => rhs5 pk ps imp e
   | .syscall id args => decide (id < 3) && args.all pureE
   | .call f args => ps.contains f && args.all pureE
-  | .assignSub _ _ _ => false
+  | .assignSub _ i e => pureE i && pureE e
 def okS5L (pk : Bool) (ps imp : List String) : List X.Stmt → Bool
   | [] => true
   | s :: ss => okS5 pk ps imp s && okS5L pk ps imp ss
@@ -87,7 +87,7 @@ theorem okS4_okS5 (pk : Bool) (ps imp : List String) : (s : X.Stmt) → okS4 ps 
     exact okS4L_okS5L pk ps imp ss h
   | .syscall _ _, h => by simp only [okS4] at h; simp only [okS5]; exact h
   | .call _ _, h => by simp only [okS4] at h; simp only [okS5]; exact h
-  | .assignSub _ _ _, h => by simp [okS4] at h
+  | .assignSub _ _ _, h => by simp only [okS4] at h; simp only [okS5]; exact h
 theorem okS4L_okS5L (pk : Bool) (ps imp : List String) : (ss : List X.Stmt) → okS4L ps ss = true → okS5L pk ps imp ss = true
   | [], _ => rfl
   | s :: ss, h => by
